@@ -1195,6 +1195,11 @@ impl Prop for C13 {
             ops.push(op.line());
         }
         if with_threads {
+            // thread sections always run with the faithful source (a panic inside a section cannot be
+            // attributed to one listed call)
+            if unfaithful_at.is_some() {
+                ops.push("srcmode 0".to_string());
+            }
             let per = rng.range(4, 16);
             thread_section(rng, &g, &data, &mut prev, &mut ops, 8, per);
             for _ in 0..rng.range(0, 6) {
